@@ -13,6 +13,9 @@ import (
 type segReader struct {
 	segs  [][]byte
 	reads int
+	// dataEOF: the read that hands out the last bytes returns them together with io.EOF (as iotest.DataErrReader
+	// does; the io.Reader contract allows it)
+	dataEOF bool
 }
 
 func (s *segReader) Read(b []byte) (int, error) {
@@ -25,13 +28,28 @@ func (s *segReader) Read(b []byte) (int, error) {
 	}
 	n := copy(b, s.segs[0])
 	s.segs[0] = s.segs[0][n:]
+	if s.dataEOF && len(s.segs[0]) == 0 {
+		last := true
+		for _, rest := range s.segs[1:] {
+			if len(rest) > 0 {
+				last = false
+			}
+		}
+		if last {
+			s.segs = nil
+			return n, io.EOF
+		}
+	}
 	return n, nil
 }
 
 // streamOutcome runs the real parser over the segments until end of stream or error and returns the
 // canonical outcome "v <tree> ; v <tree> ; eof|err|panic" together with the values.
 func streamOutcome(segs [][]byte, maxValues int) (string, []*Node, string) {
-	rd := &segReader{segs: segs}
+	return streamOutcomeR(&segReader{segs: segs}, maxValues)
+}
+
+func streamOutcomeR(rd *segReader, maxValues int) (string, []*Node, string) {
 	p := proto.NewParserWithReader(rd)
 	var parts []string
 	var vals []*Node
